@@ -230,4 +230,9 @@ LockSanity ==
     /\ \A r \in DOMAIN heap : heap[r].strong >= 1
 
 (* Deadlock freedom: TLC's deadlock check (the only terminal states are AllDone) *)
+
+(* Under weak fairness of every thread every program runs to completion: no livelock between the   *)
+(* upgradable reader waiting for readers to leave and readers queueing behind it                     *)
+FairSpec == Spec /\ \A t \in Threads : WF_vars(Step(t))
+Termination == <>AllDone
 =============================================================================
